@@ -81,6 +81,44 @@ theorem retry_ok_iff (a : Int) (out : Nat → Bool) :
       have := (retry_fail_calls_all a out hr).2 k hk
       rw [hok] at this; cases this
 
+/-- `utils.Retry` looks at nothing but the first `max attempts 1` calls: two fetch functions that behave alike on these
+calls give the same result and the same number of calls. -/
+theorem retry_depends_on_prefix (a : Int) (o1 o2 : Nat → Bool)
+    (h : ∀ k, k < (max a 1).toNat → o1 k = o2 k) : retry a o1 = retry a o2 := by
+  have key : ∀ fuel i, (∀ k, i ≤ k → k ≤ i + fuel → o1 k = o2 k) → retryFrom o1 fuel i = retryFrom o2 fuel i := by
+    intro fuel
+    induction fuel with
+    | zero =>
+      intro i hk
+      simp only [retryFrom, hk i (Nat.le_refl _) (Nat.le_refl _)]
+    | succ f ih =>
+      intro i hk
+      have hi := hk i (Nat.le_refl _) (by omega)
+      unfold retryFrom
+      rw [hi, ih (i + 1) (fun k h1 h2 => hk k (by omega) (by omega))]
+  unfold retry
+  apply key
+  intro k _ hk
+  have := retryBound_eq a
+  exact h k (by omega)
+
+/-- More attempts never hurt and change nothing once the call succeeds: a call that succeeds with `a` attempts succeeds with
+every `b ≥ a`, after the same number of calls of the fetch function. -/
+theorem retry_more_attempts (a b : Int) (out : Nat → Bool) (hab : a ≤ b) (h : (retry a out).1 = true) :
+    (retry b out).1 = true ∧ (retry b out).2 = (retry a out).2 := by
+  obtain ⟨k, hk, hok⟩ := (retry_ok_iff a out).mp h
+  have hb : (retry b out).1 = true := (retry_ok_iff b out).mpr ⟨k, by omega, hok⟩
+  refine ⟨hb, ?_⟩
+  obtain ⟨ha1, ha2⟩ := retry_stops_at_first_success a out h
+  obtain ⟨hb1, hb2⟩ := retry_stops_at_first_success b out hb
+  have hca := retry_at_least_one_call a out
+  have hcb := retry_at_least_one_call b out
+  by_cases hlt : (retry a out).2 - 1 < (retry b out).2 - 1
+  · have := hb2 _ hlt; rw [ha1] at this; cases this
+  · by_cases hgt : (retry b out).2 - 1 < (retry a out).2 - 1
+    · have := ha2 _ hgt; rw [hb1] at this; cases this
+    · omega
+
 /-- The loaders' own retry (`CRLLoaderRetryCount`): between one and five calls, success iff one of five would succeed. -/
 theorem loader_retry_five (out : Nat → Bool) :
     1 ≤ (loaderRetry out).2 ∧ (loaderRetry out).2 ≤ 5 ∧
@@ -362,5 +400,9 @@ example : (runCalls (fresh 3) [fun _ => false, fun _ => false]).last = none := b
 example : (runCalls (fresh 3) [fun _ => false, fun j => j == 2, fun _ => false]).last = some 2 := by decide
 example : load (load (fresh 3) (fun j => j == 2)).1 (fun j => j == 2 || j == 0) = (⟨3, some 2⟩, some 2, [2]) := by decide
 example : (load (load (fresh 3) (fun j => j == 2)).1 (fun j => j == 0)).2.2 = [2, 0] := by decide
+
+-- retry: only the first max(attempts,1) calls matter; more attempts keep a success and its call count
+example : retry 3 (fun k => k == 1 || k == 7) = retry 3 (fun k => k == 1) := by decide
+example : retry 2 (fun k => k == 1) = (true, 2) ∧ retry 9 (fun k => k == 1) = (true, 2) := by decide
 
 end Crv.Props.C10.Loader
